@@ -204,8 +204,8 @@ OnFailedLine(C, m, t, syncfail) ==
 (* grp: the signal went to the process GROUP (killpg); a signal to the leading process alone leaves the rest of the task's  *)
 (* processes running - the exit of the leader that follows does not show that the task was stopped                           *)
 OnKill(C, m, t, sig, foreign, grp) ==
-    [m EXCEPT !.killed = @ \cup (IF foreign \/ ~grp THEN {} ELSE {t}),
-              !.leaderOnly = @ \cup (IF ~foreign /\ ~grp THEN {t} ELSE {}),
+    [m EXCEPT !.killed = @ \cup (IF foreign \/ ~grp \/ sig # 15 THEN {} ELSE {t}),      \* "receives SIGTERM": nothing else counts
+              !.leaderOnly = @ \cup (IF ~foreign /\ (~grp \/ sig # 15) THEN {t} ELSE {}),   \* (also: the group got another signal)
               !.badkill = @ \/ foreign \/ sig # 15,
               !.viol = @ \cup V(~foreign, "OnlyOwnGroups")]
 
